@@ -123,8 +123,8 @@ V("c12-benign-lock-alias", "C12", PR, "        with self._lock:\n            del
 LR = "rich/live_render.py"
 V("c10-live-pop-outside-finally", "C10", LV, "            finally:\n                self._disable_redirect_io()\n                self.console.pop_render_hook()\n                self.console.show_cursor(True)\n",
   "            finally:\n                self._disable_redirect_io()\n                self.console.show_cursor(True)\n            self.console.pop_render_hook()\n", "R10.1")
-V("c10-progress-no-finally", "C10", PR, "            try:\n                if self.auto_refresh and self._refresh_thread is not None:\n                    self._refresh_thread.stop()\n                self.refresh()\n                if self.console.is_terminal:\n                    self.console.line()\n            finally:\n                self.console.show_cursor(True)\n                self._disable_redirect_io()\n                self.console.pop_render_hook()",
-  "            if self.auto_refresh and self._refresh_thread is not None:\n                self._refresh_thread.stop()\n            self.refresh()\n            if self.console.is_terminal:\n                self.console.line()\n            self.console.show_cursor(True)\n            self._disable_redirect_io()\n            self.console.pop_render_hook()", "R10.1")
+V("c10-progress-no-finally", "C10", PR, "            try:\n                if self.auto_refresh and self._refresh_thread is not None:\n                    self._refresh_thread.stop()\n                self.refresh()\n                # flush text pending in the redirected streams while it can still go above the frame\n                self._disable_redirect_io()\n                if self.console.is_terminal:\n                    self.console.line()\n            finally:\n                self.console.show_cursor(True)\n                self._disable_redirect_io()\n                self.console.pop_render_hook()",
+  "            if self.auto_refresh and self._refresh_thread is not None:\n                self._refresh_thread.stop()\n            self.refresh()\n            self._disable_redirect_io()\n            if self.console.is_terminal:\n                self.console.line()\n            self.console.show_cursor(True)\n            self._disable_redirect_io()\n            self.console.pop_render_hook()", "R10.1")
 V("c10-progress-exit-swallows", "C10", PR, "    def __exit__(self, exc_type, exc_val, exc_tb) -> None:\n        self.stop()\n\n    def track(", "    def __exit__(self, exc_type, exc_val, exc_tb) -> None:\n        self.stop()\n        return True\n\n    def track(", "R10.1")
 V("c10-live-exit-conditional", "C10", LV, "    def __exit__(self, exc_type, exc_val, exc_tb) -> None:\n        self.stop()\n\n    def _enable_redirect_io", "    def __exit__(self, exc_type, exc_val, exc_tb) -> None:\n        if exc_type is None:\n            self.stop()\n\n    def _enable_redirect_io", "R10.1")
 V("c10-live-stop-no-cursor", "C10", LV, "                self.console.pop_render_hook()\n                self.console.show_cursor(True)\n\n            if self.transient:", "                self.console.pop_render_hook()\n\n            if self.transient:", "R10.1")
@@ -431,3 +431,5 @@ V("c10-progress-start-handler-forgets-hook", "C10", PR, "                self._d
 V("c10-benign-progress-start-handler-stop", "C10", PR, "                self._started = False\n                self.console.show_cursor(True)\n                self._disable_redirect_io()\n                self.console.pop_render_hook()\n                raise\n", "                self.stop()\n                raise\n", None)
 V("c17-range-split-drops-blank", "C17", "rich/syntax.py", "        lines = text.split(\"\\n\", allow_blank=bool(self.line_range))\n", "        lines = text.split(\"\\n\")\n", "R17.9")
 V("c17-benign-range-split-allow-blank-var", "C17", "rich/syntax.py", "        lines = text.split(\"\\n\", allow_blank=bool(self.line_range))\n", "        keep_blank = self.line_range is not None\n        lines = text.split(\"\\n\", allow_blank=keep_blank)\n", None)
+V("c10-live-stop-line-before-release", "C10", "rich/live.py", "                # flush text pending in the redirected streams while it can still go above the frame\n                self._disable_redirect_io()\n", "", "R10.10")
+V("c10-progress-stop-line-before-release", "C10", PR, "                # flush text pending in the redirected streams while it can still go above the frame\n                self._disable_redirect_io()\n", "", "R10.10")
